@@ -810,3 +810,44 @@ theorem C06_gaussian_filter_tuple (dt : String) (m : Mode) (f : Img Float) :
 /-- non-vacuity: the three argument forms on a rank-2 array -/
 example : normalizeSeq 2 (.scalar (3 : Nat)) = some [3, 3] ∧ normalizeSeq 2 (.seq [1, 0]) = some [1, 0] ∧
     normalizeSeq 2 (.seq [(1 : Nat)]) = none ∧ normalizeSeq (α := Nat) 0 (.seq []) = some [] := by decide
+
+/-- **C06-T5b (`laplacian_2D` is exact on quadratics).** `laplacian_2D(array, alpha)` is `convolve(array as double,
+laplacianWeightsG alpha, mode='nearest')` (the driver's `kind=laplacian`). Over any field, for every `alpha` with
+`alpha + 1 ≠ 0` and every 2-D image that is a quadratic polynomial of the pixel coordinates,
+`f[y, x] = a·y² + b·x² + c·x·y + d·y + e·x + g`, the generic kernel with these nine weights returns at every interior
+pixel exactly `2a + 2b` — the true Laplacian `f_yy + f_xx`, independently of `alpha` (the diagonal and axial second
+differences are mixed with weights that always add up to one) — in particular 0 on every affine image. -/
+theorem C06_laplacian_quadratic {K : Type} [Field K] (alpha : K) (ha : alpha + 1 ≠ 0) (isZero : K → Bool)
+    (hz : ∀ x, isZero x = true → x = 0) (f : Img K) (N0 N1 : Nat) (hf : f.shape = [N0, N1])
+    (a b c d e g : K)
+    (hq : ∀ y x : Int, 0 ≤ y → y < N0 → 0 ≤ x → x < N1 →
+      f.getD [y, x] 0 = a * (y : K) * (y : K) + b * (x : K) * (x : K) + c * (x : K) * (y : K) + d * (y : K) + e * (x : K) + g)
+    (y x : Int) (hy0 : 1 ≤ y) (hy1 : y + 1 < N0) (hx0 : 1 ≤ x) (hx1 : x + 1 < N1) :
+    convAcc .nearest f (support isZero [3, 3] (laplacianWeightsG (Nat.cast : Nat → K) alpha)) [y, x] = 2 * a + 2 * b := by
+  have hs : ∀ d ∈ f.shape, 0 < d := by
+    rw [hf]; intro d hd
+    simp only [List.mem_cons, List.not_mem_nil, or_false] at hd
+    rcases hd with rfl | rfl <;> omega
+  rw [C06_convolve_eq_spec isZero hz .nearest f hs, convSpec33_interior f N0 N1 hf _ y x ⟨hy0, hy1⟩ ⟨hx0, hx1⟩]
+  rw [hq (y - 1) (x - 1) (by omega) (by omega) (by omega) (by omega),
+    hq (y - 1) x (by omega) (by omega) (by omega) (by omega),
+    hq (y - 1) (x + 1) (by omega) (by omega) (by omega) (by omega),
+    hq y (x - 1) (by omega) (by omega) (by omega) (by omega),
+    hq y x (by omega) (by omega) (by omega) (by omega),
+    hq y (x + 1) (by omega) (by omega) (by omega) (by omega),
+    hq (y + 1) (x - 1) (by omega) (by omega) (by omega) (by omega),
+    hq (y + 1) x (by omega) (by omega) (by omega) (by omega),
+    hq (y + 1) (x + 1) (by omega) (by omega) (by omega) (by omega)]
+  simp only [laplacianWeightsG, Array.getD, List.size_toArray, List.length_cons, List.length_nil]
+  simp
+  field_simp
+  ring
+
+/-- non-vacuity over ℚ: `f[y, x] = y² + 2x²` on 3×3, `alpha = 1/5` (the default): the centre pixel gets `2·1 + 2·2 = 6`;
+the affine image `2y + x` gets 0 there. -/
+example :
+    convAcc .nearest (⟨[3, 3], #[0, 2, 8, 1, 3, 9, 4, 6, 12]⟩ : Img ℚ)
+      (support (fun x => x == 0) [3, 3] (laplacianWeightsG (Nat.cast : Nat → ℚ) (1 / 5))) [1, 1] = 6 ∧
+    convAcc .nearest (⟨[3, 3], #[0, 1, 2, 2, 3, 4, 4, 5, 6]⟩ : Img ℚ)
+      (support (fun x => x == 0) [3, 3] (laplacianWeightsG (Nat.cast : Nat → ℚ) (1 / 5))) [1, 1] = 0 := by
+  decide +kernel
